@@ -14,5 +14,6 @@ CONSTANTS
   Atomic = FALSE
   CallbacksUnderQueueLock = TRUE
   CountCooldowns = TRUE
+  FreshChannelOnWake = FALSE
 VIEW view
 INVARIANTS NoLockCycle
